@@ -18,7 +18,7 @@ import (
 	"github.com/lightningnetwork/lnd/lnwire"
 )
 
-func c13SymHtlc(name string) channeldb.HTLC {
+func c13SymHtlc(name string, withSig bool) channeldb.HTLC {
 	h := channeldb.HTLC{
 		Amt:           lnwire.MilliSatoshi(vU64(name + ".amt")),
 		RefundTimeout: vU32(name + ".expiry"),
@@ -30,7 +30,7 @@ func c13SymHtlc(name string) channeldb.HTLC {
 	copy(h.RHash[:], vBytes(name+".hash", 32))
 	h.OnionBlob[0] = vU8(name + ".onion0")
 	h.OnionBlob[lnwire.OnionPacketSize-1] = vU8(name + ".onionN")
-	if vChoice(name+".sig", 2) == 1 {
+	if withSig {
 		h.Signature = vBytes(name+".sigBytes", 3)
 	}
 
@@ -46,7 +46,8 @@ func c13HtlcEq(x, y *channeldb.HTLC) bool {
 }
 
 // VerifC13CodecCommitSet: decodeCommitSet(encodeCommitSet(cs)) == cs for a
-// commit set with up to three HTLC sets of 0..2 HTLCs with arbitrary fields.
+// commit set with up to three HTLC sets of 0..2 HTLCs with arbitrary fields
+// (five size patterns, each confirmed key).
 func VerifC13CodecCommitSet() {
 	keys := [3]HtlcSetKey{LocalHtlcSet, RemoteHtlcSet, RemotePendingHtlcSet}
 	names := [3]string{"L", "R", "P"}
@@ -56,16 +57,20 @@ func VerifC13CodecCommitSet() {
 		ConfCommitKey: fn.Some(keys[conf]),
 		HtlcSets:      make(map[HtlcSetKey][]channeldb.HTLC),
 	}
+	// sizes of the three sets (3 = the set is absent)
+	shapes := [5][3]int{{2, 1, 3}, {0, 2, 1}, {1, 0, 2}, {1, 1, 1}, {3, 3, 3}}
+	shape := shapes[vChoice("shape", 5)]
+	withSig := vChoice("sig", 2) == 1
 	present := 0
 	for i := 0; i < 3; i++ {
-		n := vChoice("n"+names[i], 4) // 3 = set absent
+		n := shape[i]
 		if n == 3 {
 			continue
 		}
 		present++
 		var hs []channeldb.HTLC
 		for k := 0; k < n; k++ {
-			hs = append(hs, c13SymHtlc(names[i]+hn[k]))
+			hs = append(hs, c13SymHtlc(names[i]+hn[k], withSig && k == 0))
 		}
 		cs.HtlcSets[keys[i]] = hs
 	}
